@@ -2,7 +2,7 @@
 # seed_matrix.sh [seed-dir...] : run the quick checks against every stored seeded change, on a scratch worktree
 # (never /repo).  Writes seeded/<id>/detect.txt ("<prop> exit=<code>" per check run) and prints a summary.
 VERIF="$(cd "$(dirname "$0")/.." && pwd)"
-WT=/tmp/wt/matrix
+WT=${MATRIX_WT:-/tmp/wt/matrix}
 [ -d $WT ] || git -C /repo worktree add -q --detach $WT HEAD
 git -C $WT checkout -q -- . ; git -C $WT checkout -q --detach "$(git -C /repo rev-parse HEAD)"
 CLAIMED=$(python3 -c "import json; print(' '.join(x['property_id'] for x in json.load(open('$VERIF/MANIFEST.json'))['checks']))")
